@@ -294,6 +294,19 @@ CHECKS = {
         design_ref="DESIGN.md 5 C32",
         note=NOTE_COMMON + " The state machine content of this property is a single frame condition; TLC's share is the enumeration and the verdicts.",
     ),
+    "C12": dict(
+        text=("TLC enumerates DetectModel (grid 12 even / 13 odd x inner < mid < outer from {0, k + 1/4} pixel units, so no lattice "
+              "pixel lies on a limit x flexible steps 9/8 and 13/8 pixels whose bin edges never hit an integer radius x segment "
+              "counts) and checks the ring algebra on the integer frequency lattice with exact rationals (adjacent rings disjoint "
+              "and additive, flexible bins tile).  Each scenario runs the real AnnularDetector, integrate_radial, "
+              "SegmentedDetector and FlexibleAnnularDetector (+ integrate_radial) on the one-hot ensemble over all n^2 diffraction "
+              "pixels at 2.1 mrad/pixel, eager and lazy, so every result decodes to the exact set of integrated pixels; "
+              "DetectTrace.tla compares the decoded sets with Ring(inner, outer) computed in integer arithmetic, the split "
+              "ranges, and every flexible bin with Ring(offset + k w, offset + (k+1) w) for the width w its metadata states."),
+        technique="TLA+ ring algebra on the integer frequency lattice (TLC) + one-hot decoding of the real detectors + TLC trace validation",
+        design_ref="DESIGN.md 5 C12",
+        note=NOTE_COMMON + " Azimuthal membership of individual segments is not modelled (only their union and uniform response).",
+    ),
 }
 
 NOT_APPLICABLE = {
